@@ -74,11 +74,28 @@ def run_concern(pid: str, tier: str, seed: int, runs=None) -> dict:
             skipped.append(f'{rel_of(p, seed)}: outside the subset ({e})')
     gen = l3gen.generate(list(models), REPO)
     res = {'obligations': [], 'failures': [], 'coverage': {}, 'trusted_base': [], 'back_end': ''}
+    missing = [p for p in models if gen[p]['status'] == 'MISSING']
+    if missing:
+        # the generation harness itself did not run (compile error, crash): never to be mistaken for "nothing to check"
+        class _M:
+            unit = 'L3'
+            status = 'inconclusive'
+            reason = f'the generation harness produced no result for {len(missing)} of {len(models)} programs: ' + gen[missing[0]]['msg'][-300:]
+        res['inconclusive'] = _M()
+        return res
     units: List[Program] = []
     samples = []
     for p, m in models.items():
         g = gen[p]
         rel = rel_of(p, seed)
+        if g.get('stateful') and pid in ('C09', 'C10'):
+            # same input, different output depending on what the thread generated before: prefix / module assignment is not a function of the input
+            ur_ = UnitRun('L3_' + os.path.basename(os.path.dirname(p)), 'failed')
+            lab_ = f'index:{os.path.basename(p)}#output-independent-of-earlier-runs'
+            res['obligations'].append(f'{ur_.unit}:{lab_}')
+            res['failures'].append(Failure(ur_.unit, lab_, 'the emitted text for this input differs between a fresh thread and a thread that generated other programs before '
+                                           '(state is kept across runs)', [{'file': 'schema:' + rel, 'line': 0, 'text': rel, 'what': 'program'}], '', props=[pid]))
+            continue
         if g['status'] != 'OK':
             # the generator rejected / crashed on a schema of the supported subset: reported under C13's scope, skipped here
             skipped.append(f'{rel}: generator did not produce output ({g["status"]} {g["msg"][:120]})')
@@ -285,11 +302,24 @@ def run_c10(pid: str, tier: str, seed: int, runs=None) -> dict:
         except M.Unsupported as e:
             skipped.append(f'{rel_of(p, seed)}: outside the subset ({e})')
     gen = l3gen.generate(list(models), REPO)
+    if any(gen[p]['status'] == 'MISSING' for p in models):
+        class _M:
+            unit = 'L3'
+            status = 'inconclusive'
+            reason = 'the generation harness produced no result: ' + next(gen[p]['msg'] for p in models if gen[p]['status'] == 'MISSING')[-300:]
+        return {'obligations': [], 'failures': [], 'coverage': {}, 'trusted_base': [], 'back_end': '', 'inconclusive': _M()}
     res = {'obligations': [], 'failures': [], 'coverage': {}, 'trusted_base': [], 'back_end': ' + attribute-text comparison (no solver) for the emitted namespace declarations'}
     nprog = 0
     for p, m in models.items():
         g = gen[p]
         rel = rel_of(p, seed)
+        if g.get('stateful'):
+            lab_ = f'index:{os.path.basename(p)}#output-independent-of-earlier-runs'
+            un_ = 'L3_' + os.path.basename(os.path.dirname(p)) + '_C10'
+            res['obligations'].append(f'{un_}:{lab_}')
+            res['failures'].append(Failure(un_, lab_, 'the emitted text for this input differs between a fresh thread and a thread that generated other programs before '
+                                           '(state is kept across runs)', [{'file': 'schema:' + rel, 'line': 0, 'text': rel, 'what': 'program'}], '', props=[pid]))
+            continue
         if g['status'] != 'OK':
             skipped.append(f'{rel}: generator did not produce output ({g["status"]} {g["msg"][:120]})')
             continue
